@@ -64,13 +64,20 @@ def parity_of(yterm):
 
 
 def parity_of_cond(c):
-    """Is the condition a parity test of the bound element (x % 2, not x % 2, x & 1, ...)?"""
+    """Does the filter condition select elements by their parity? Decided semantically: with the element's parity set to odd and
+    to even the condition becomes A and not-A (for whatever A the rest of it is), e.g. `x % 2`, `not x % 2`, `x & 1 == flag`."""
     c = rules.unfz(c)
-    if isinstance(c, T) and c.op == "not":
-        c = c.args[0]
-    if isinstance(c, T) and c.op == "truth":
-        c = c.args[0]
-    return isinstance(c, T) and c.op == "mod" and c.args[1] == 2 and isinstance(c.args[0], T) and c.args[0].op == "bv"
+
+    def with_parity(odd):
+        def rule(t):
+            if isinstance(t, T) and t.op == "mod" and t.args[1] == 2 and isinstance(t.args[0], T) and t.args[0].op == "bv":
+                return 1 if odd else 0
+            return None
+        return tm.subst(c, rule)
+    c1, c0 = with_parity(True), with_parity(False)
+    if tm.contains(c1, lambda t: isinstance(t, T) and t.op == "bv"):
+        return False  # the condition looks at more of the element than its parity
+    return tm.veq(c1, tm.lnot(c0)) or tm.veq(tm.lnot(c1), c0)
 
 
 def check_point_decoder(ctx, oid="C14.1"):
